@@ -5,6 +5,8 @@
 set -u
 cd "$(dirname "$0")/.."
 J=sim/target/release/jbsim
+# always rebuild from /repo's current tree: a binary left over from a run against a patched tree would be judged otherwise
+( cd sim && RUSTFLAGS="--cfg jbonsai_verif" CARGO_NET_OFFLINE=true cargo build --release --offline --features threads ) >/dev/null 2>&1 || { echo "build failed"; exit 2; }
 N=${1:-24}; RUNS=${2:-400}
 tmp=$(mktemp -d /dev/shm/jbdet.XXXX)
 bad=0; pairs=0
